@@ -37,6 +37,8 @@ REQUIRED_THEOREMS = [
     # round 3: histories on one object, regeneration criteria
     "face_corner_guard_bridge", "cell_corner_guard_bridge", "cell_faces_always_rebuilt_bridge",
     "stale_corner_records_are_rebuilt", "corner_records_after_append", "second_mesh_on_same_data",
+    # round 3b: invalid edges produced by the completion
+    "completion_skip_bridge", "completion_appends_only_valid_edges",
     # round 2: row container types
     "prepare_commutes_with_forgetting_row_type", "prepare_depends_on_row_values_only", "prepared_rows_are_lists_or_tuples",
 ]
@@ -881,7 +883,7 @@ def oracle(case):
     r = _run(case)
     # ---- construction must succeed (documented rejection: from_arrays refuses indices >= nV)
     if r["err"]:
-        if case["via"] == "arrays" and r["err"] == "err:Other(Exception)" and any(max(e) >= nV for e in E):
+        if case["via"] == "arrays" and r["err"] == "err:Other(Exception)" and any(max(row) >= nV for fld in ("E", "F", "C") for row in case[fld]):
             return out
         add(f"C02/raises/{r['stage']}/{r['err']}/{_ctx(case)}" + ("" if btag in ("once", "twice", "reprep", "rewrap", "rewrapinst") else "/" + btag),
             f"construction ({r['stage']} build, {build}) raised {r['err']} on a valid raw input", r["err"])
@@ -973,6 +975,7 @@ def classify(case, obs):
     for a in case["EA"]:
         ks.append("attr:" + ("dense" if a["dense"] else "sparse") + ("+default" if a["dflt"] is not None else "") + ("+filtered" if inv else ""))
     if case["C"] and case["F"]: ks.append("faces:declared-with-cells")
+    if case.get("degen"): ks.append("degen:" + case["degen"])
     ks += ["rep:idx:" + _rep(case, "idx", "py"), "rep:vert:" + _rep(case, "vert", "f64")]
     if case["via"] == "arrays":
         ks.append("arr:" + _rep(case, "order", "C") + ("+readonly" if _rep(case, "ro", False) else ""))
@@ -1042,8 +1045,8 @@ def shrink(case, still):
 def search_on_break(rng, broken, mismatches):
     # broken table theorem / correspondence: volume scenarios of every cell kind through every container type
     out = []
-    for _ in range(150):
-        sc = R.scenario(rng, "quick")
+    for i in range(240):
+        sc = R.scenario(rng, "quick", degen=(i % 2 == 0))      # half of them: invalid edges / faces produced by completion
         out.append(_finish(rng, sc))
     return out
 
